@@ -358,6 +358,11 @@ class Interp:
     def stmt(self, st, env):
         if isinstance(st, ast.Assign):
             v = self.ev(st.value, env)
+            if getattr(self, "record_stores", False):
+                for t in st.targets:
+                    if isinstance(t, ast.Subscript):
+                        env = dict(env)
+                        env["@events"] = env.get("@events", ()) + (("store", norm(t.value), self.ev(t.slice, env), v, st),)
             for t in st.targets:
                 if isinstance(t, (ast.Tuple, ast.List)):
                     for x in t.elts:
